@@ -28,6 +28,10 @@ META = {
                   "default recent-blocks cache: file creation (blocks directory away), replacing an invalid existing file "
                   "(non-empty directory where the ODS file goes), linking the height (heights directory away); an empty block is only linked, so no write failure exists for it. "
                   "The window test of the code reads the wall clock: block times keep at least one hour of margin. "
+                  "core.Exchange is modelled (spec/bridge/Exchange.tla: GetByHeight incl. a fetcher answering another height, "
+                  "Get by hash incl. another hash / missing commit, GetRangeByHeight prefix semantics, Head; window suffix, modes, "
+                  "write failures) and model-checked, but NOT yet replayed on the real core.Exchange (needs an in-process gRPC "
+                  "BlockAPI server serving scripted signed blocks): no assurance about exchange.go beyond the shared storeEDS. "
                   "In-window blocks being stored *with* Q4 is compared as conformance, not demanded by the property. The "
                   "error mapping `A || B && !C` (a byzantine error joined with not-found is reported as not available, "
                   "DESIGN.md section 6 #19) is transcribed as the code has it: outside the statement, noted only. Keys "
@@ -64,6 +68,12 @@ def run(ctx):
     r = ctx.tlc("bridge/Bridge.tla", cfg, workers=vlib.NCPU, timeout=900 if quick else 3000)
     if r.ok:
         ctx.cover(exhaustive=True)
+    # core.Exchange (GetByHeight / Get / GetRangeByHeight / Head over the same storeEDS policy): model only so far --
+    # spec/bridge/Exchange.tla is checked exhaustively; it is NOT yet bound to the real core.Exchange (see level_note),
+    # so it contributes no verdict on the code: a violated invariant there is a model problem (inconclusive).
+    x = ctx.tlc("bridge/Exchange.tla", "bridge/ExMC_quick.cfg" if quick else "bridge/ExMC_thorough.cfg",
+                workers=6, timeout=300 if quick else 1500)
+    ctx.cover(exchange_model_exhaustive=bool(x.ok), exchange_bound_to_code=False)
     # vacuity of the model is judged on the behaviours it produced for the replay: the res_* counters below
     # count, per verdict of the model (processed, duplicate, fetch_error, ...), the steps that were replayed
 
